@@ -239,12 +239,24 @@ def ob_sd_message_received(vc):
     sa, sb = gen_storage(vc, "st")
     prot.session_storage = sa
     checks = vc.spy(sa, "check_received")
-    ready_at_handover = []
+    order = []
 
     def on_sd(h, a, m):
-        ready_at_handover.append(len(loop.ready))
+        order.append("entries")
+
+    def on_reboot_sub(a):
+        order.append(("reboot", "subscriber", a))
+
+    def on_reboot_dis(a):
+        order.append(("reboot", "discovery", a))
+
+    def on_reboot_ann(a):
+        order.append(("reboot", "announcer", a))
 
     handed = vc.stub(prot, "sd_message_received", on_sd)
+    vc.stub(prot.subscriber, "reboot_detected", on_reboot_sub)
+    vc.stub(prot.discovery, "reboot_detected", on_reboot_dis)
+    vc.stub(prot.announcer, "reboot_detected", on_reboot_ann)
     msg = SH.gen_message(vc, "msg")
     addr = gen_addr(vc, "addr")
     multicast = vc.bool("multicast")
@@ -261,7 +273,7 @@ def ob_sd_message_received(vc):
         vc.check_eq(sa.outgoing, sb.outgoing, "sd.message_received.rejected.outgoing_untouched" + region)
         vc.check_eq(len(loop.ready) + len(loop.timers) + len(loop.tasks), 0, "sd.message_received.rejected.nothing_scheduled" + region)
         vc.check_eq(len(sent), 0, "sd.message_received.rejected.nothing_sent" + region)
-        vc.check_eq(len(handed), 0, "sd.message_received.rejected.entries_not_processed" + region)
+        vc.check_eq(len(order), 0, "sd.message_received.rejected.no_reboot_no_entries" + region)
         return
     vc.cover("accepted")
     sdhdr, rest = parsed.value
@@ -270,21 +282,28 @@ def ob_sd_message_received(vc):
         vc.check_eq(checks[0], (addr, multicast, sdhdr.flag_reboot, msg.session_id), "sd.message_received.session_check_arguments")
     rebooted = check_received(sb, addr, multicast, sdhdr.flag_reboot, msg.session_id)
     vc.check_eq(sa.incoming, sb.incoming, "sd.message_received.session_state_updated_once")
-    pend = loop.pending()
-    n_sub = len([1 for p in pend if p == (prot.subscriber.reboot_detected, (addr,))])
-    n_dis = len([1 for p in pend if p == (prot.discovery.reboot_detected, (addr,))])
-    n_ann = len([1 for p in pend if p == (prot.announcer.reboot_detected, (addr,))])
-    if rebooted:
-        vc.cover("reboot")
-        vc.check(n_sub == 1 and n_dis == 1 and n_ann == 1, "sd.message_received.reboot_reaches_each_part_exactly_once")
-        vc.check_eq(len(pend), 3, "sd.message_received.reboot_schedules_nothing_else")
-    else:
-        vc.check_eq(len(pend), 0, "sd.message_received.no_reboot_no_fanout")
     vc.check_eq(len(handed), 1, "sd.message_received.entries_handed_on_once")
     if len(handed) == 1:
         vc.check_eq(handed[0][1:], (addr, multicast), "sd.message_received.handed_on_with_addr_and_channel")
         vc.check_eq(handed[0][0], sdhdr.resolve_options(), "sd.message_received.handed_on_resolved")
-        vc.check_eq(ready_at_handover[0], len(pend), "sd.message_received.reboot_queued_before_entries")
+    # the reboot, if any, has been APPLIED to every part before the entries are handed on
+    # (a reboot that is merely queued would be overtaken by Subscribe / FindService entries,
+    # which are dispatched immediately)
+    before = []
+    for x in order:
+        if x == "entries":
+            break
+        before.append(x)
+    n_sub = len([1 for x in before if x == ("reboot", "subscriber", addr)])
+    n_dis = len([1 for x in before if x == ("reboot", "discovery", addr)])
+    n_ann = len([1 for x in before if x == ("reboot", "announcer", addr)])
+    if rebooted:
+        vc.cover("reboot")
+        vc.check(n_sub == 1 and n_dis == 1 and n_ann == 1, "sd.message_received.reboot_applied_to_each_part_exactly_once_before_the_entries")
+        vc.check_eq(len(order), 4, "sd.message_received.reboot_reaches_each_part_exactly_once")
+    else:
+        vc.check_eq(order, ["entries"], "sd.message_received.no_reboot_no_fanout")
+    vc.check_eq(len(loop.ready) + len(loop.timers), 0, "sd.message_received.defers_nothing_itself")
     vc.check_eq(len(sent), 0, "sd.message_received.sends_nothing_itself")
 
 
